@@ -22,7 +22,9 @@ EXPLANATION = (
     "assigned back from the matching result component), the clique-to-rows map is based at the decomposed-row pointer "
     "and not at a row of the original problem, an undecomposed cone moves by (decomposed pointer - original range start) "
     "in both A and b, and the (i, j) sort key uses as stride the length of the very ordering vector the vertices are "
-    "read from (j*stride + i is injective and column-major only then).")
+    "read from (j*stride + i is injective and column-major only then); (R5) PSD completion assigns W[eta, nu] with eta filtered "
+    "against both the separator and the supernode nu it is paired with, so the clique blocks determined by the solve are not "
+    "overwritten.")
 ASSUMPTIONS = ['rustc MIR construction and trait resolution are correct',
                'the sdp code is analysed by type-checking only (cargo check with empty blas-src/lapack-src); it is never linked or run']
 
@@ -379,6 +381,53 @@ def index_spaces(rep, F, tag):
     R.guard(body)
 
 
+def completion_disjoint(rep, F, tag):
+    """PSD completion fills the entries of z that the problem leaves free.  The block it writes, W[eta, nu] (and its
+    transpose), must not touch the clique itself: eta has to exclude the separator alpha *and* the supernode nu, otherwise
+    entries of the clique block - which are determined by the solve - are overwritten."""
+    R = rep.rule('C18.R5', 'PSD completion writes only outside the clique: the row set it assigns excludes the separator and the supernode it is paired with')
+
+    def body():
+        f = F.one(name='psd_complete')
+        sa = calls_named(f, 'subsasgn')
+        R.check(len(sa) == 2, 'assign-sites' + tag, '%d subsasgn calls in psd_complete, expected the block and its transpose' % len(sa), f.loc())
+        flt = calls_named(f, 'filter')
+        cl = F.closures_of.get(f.key, [])
+        if len(flt) != 1 or len(cl) != 1:
+            R.bad('eta-filter' + tag, 'expected one filter closure defining the free rows (found %d filters, %d closures)' % (len(flt), len(cl)), f.loc())
+            return
+        cap = canon(f.sym_operand(flt[0].args[1]))
+        captured = split_args(cap) if cap.startswith('closure(') else []
+        g = cl[0]
+        # decision table of the closure: true only if x is in none of the captured sets
+        tested = set()
+        ok_tab = True
+        for val, ret, ev, tr in Walker(g).leaves():
+            cs = {k: v for k, v in val.items() if k.startswith('contains(')}
+            tested |= set(cs)
+            res = None
+            if ret[0] == 'c':
+                res = bool(ret[1])
+            elif ret[0] == 's' and str(ret[1]).startswith('not contains('):
+                # the last test is returned negated: both outcomes
+                k = str(ret[1])[4:]
+                tested.add(k)
+                continue
+            if res is True and any(v == 1 for v in cs.values()):
+                ok_tab = False
+        R.check(ok_tab and len(tested) == len(captured) and len(captured) >= 2, 'eta-excludes-all' + tag,
+                'the free row set is filtered by %s over the captured sets %s: it must exclude every captured clique set' % (sorted(tested), [c[:40] for c in captured]), g.loc())
+        for c in sa:
+            a = [canon(f.sym_operand(x)) for x in c.args]
+            sets = [x for x in a[1:3] if not x.startswith('collect(filter(')]
+            eta = [x for x in a[1:3] if x.startswith('collect(filter(')]
+            R.check(len(sets) == 1 and len(eta) == 1 and sets[0] in captured, 'paired-set-excluded|%d%s' % (sa.index(c), tag),
+                    'subsasgn writes W[%s, %s]: the free rows are not filtered against the set they are paired with (%s not among the sets the filter '
+                    'excludes), so entries of the clique block itself are overwritten' % (a[1][:50], a[2][:50], sets[:1] and sets[0][:60]), f.loc(c.sp))
+
+    R.guard(body)
+
+
 def run(ctx, rep, tier):
     stage_rules(ctx, rep, 'C18.R1')
     for cfg in (CONFIGS_THOROUGH if tier == 'thorough' else CONFIGS):
@@ -387,6 +436,7 @@ def run(ctx, rep, tier):
         reversal_shape(rep, F, tag)
         gates(rep, F, tag)
         index_spaces(rep, F, tag)
+        completion_disjoint(rep, F, tag)
     from . import c05
     for cfg in CONFIGS:
         c05.hash_order(rep, ctx.facts(cfg), ctx.cg(cfg), '[%s]' % cfg)
